@@ -1,0 +1,47 @@
+//go:build verif
+
+package dials
+
+import (
+	"context"
+	"reflect"
+)
+
+// VerifHook, when non-nil, is called at every instrumented point. gate is true
+// for points at which a scheduler may park the calling goroutine and false for
+// points that only record something.
+var VerifHook func(ctx context.Context, gate bool, point string, kv ...any)
+
+// VerifCbCap overrides the capacity of the callback event queue when > 0.
+var VerifCbCap int
+
+func verifCbCapacity() int { return VerifCbCap }
+
+func verifPoint(ctx context.Context, point string, kv ...any) {
+	if h := VerifHook; h != nil {
+		h(ctx, true, point, kv...)
+	}
+}
+
+func verifNote(ctx context.Context, point string, kv ...any) {
+	if h := VerifHook; h != nil {
+		h(ctx, false, point, kv...)
+	}
+}
+
+// VerifCompose exposes compose for config types that only exist as a
+// reflect.Type: defaults is a pointer to the config struct, layers are the
+// values sources would have returned (pointerified struct or pointer to it).
+func VerifCompose(defaults interface{}, layers []reflect.Value) (interface{}, error) {
+	svs := make([]sourceValue, len(layers))
+	for i, l := range layers {
+		svs[i] = sourceValue{value: l}
+	}
+	return compose(defaults, svs)
+}
+
+// VerifDeepCopy exposes the deep copier: v must be a pointer; the result is a
+// pointer to a copy.
+func VerifDeepCopy(v interface{}) interface{} {
+	return realDeepCopy(v).Interface()
+}
